@@ -6,8 +6,8 @@
 set -u
 WT=$(realpath "$1"); shift
 VH="$WT/VH"
-rm -rf "$VH"; mkdir -p "$VH/out"
-rsync -a --exclude 'target*' /verif/harness "$VH/"
+mkdir -p "$VH/out"; rm -rf "$VH/out"/*
+rsync -a --delete --exclude 'target*' /verif/harness "$VH/"
 find "$VH/harness" -name Cargo.toml -exec sed -i "s#/repo/#$WT/#g" {} +
 cp "$WT/Cargo.lock" "$VH/harness/Cargo.lock" 2>/dev/null || cp /repo/Cargo.lock "$VH/harness/Cargo.lock"
 export CARGO_NET_OFFLINE=true CARGO_TARGET_DIR="${SEED_TARGET_DIR:-/tmp/vh-target}" VERIF_OUT_DIR="$VH/out"
@@ -18,4 +18,4 @@ for id in "$@"; do
   echo "=== $id (${TIER:-quick}) against $WT"
   "$CARGO_TARGET_DIR/release/$BIN" "$id" --tier "${TIER:-quick}" 2>&1 | grep -v "^KNOWN-FINDING" | cut -c1-400 | tail -${LINES_OUT:-8}
 done
-rm -rf "$VH"
+[ -n "${KEEP_VH:-}" ] || rm -rf "$VH"
